@@ -541,6 +541,10 @@ class TakeUnknownOneChunk(Slice):
     def chunks(self):
         return self.array.chunks
 
+    def _requires_grid_preservation(self, dependency):
+        # built under a precondition on the input's block grid
+        return True
+
     def _layer(self) -> dict:
         slices = [slice(None)] * len(self.array.chunks)
         slices[self.axis] = list(self.index)
